@@ -6,6 +6,14 @@
     util._val_to_num              -> gen_val_to_num          (the ORDER of the guesses for untyped directory texts; C08 drill)
     writer.partition_on_columns   -> gen_dir_path / gen_relname   (directory naming only: the `path = join_path(...)` and
                                                                    `relname = join_path(path, partname)` statements)
+    api._path_to_cats             -> gen_hive_hits / gen_drill_hits / gen_add_hit / gen_final_cats / gen_path_to_cats
+                                                             (the loop skeleton is checked against a template; the hit extraction, the
+                                                              body of the inner loop - by symbolic execution over the four containers
+                                                              seen / string_types / cats / raw, so the order of independent statements
+                                                              does not matter - and the return expression are translated)
+    api.paths_to_cats             -> gen_paths_to_cats       (guards, scheme detection, hive attempt, drill only after ValueError;
+                                                              `_path_to_cats` is a parameter, `_strip_path_tail(paths)` - a set - is
+                                                              the parameter `dirs` holding its elements in iteration order)
 
 Output: Gen/GenPaths.v (logical root PqGen) over the vocabulary of coq/theories/Impl/Partition.v (str = list ascii, split_on,
 join_with, join_path, parse_int, lower, mem_str, value, ...) and coq/theories/Impl/PyPaths.v (py_find_break, py_format,
@@ -20,13 +28,15 @@ Fragment
                e.rsplit('c', 1)[0]; join_path(e, ...), join_path(*generator); zip(e, e); [e for x in e] / generator (one
                `for`, optional `if "c" in x`); all(generator); e == e, e != e (by type); "c" in e; e.lower(); x in [str consts];
                type(x) == str (true: texts); isinstance(o, pd.Timestamp); o.isoformat(); str(o); "%s.." % e / % (e, ...);
-               calls of translated functions; e if c else e
+               calls of translated functions; e if c else e; max(e); len(set(e)); e < e, e > e on numbers; truth value of a
+               text / list (non-empty); x in [None, ""] (None stands for the empty text: a missing file_path)
   statements   x = e; x = y[0][...] (IndexError on an empty list); if / else (the rest of the block is continued in both
                branches); `if root is False` (root : option str, None stands for False); assert all(...);
                for [i,] x in [enumerate](L): BODY   (BODY re-binds variables bound before the loop: a fold);
                for k, (a, b) in enumerate(zip(X, Y)): if c: j = k; break      (py_find_break);
                x = []; for y in L: x.append(e)            (map);
                return e | return e, e;  if c: return e;  try: return f(x) / except: pass | return x   (guess chains)
+               (paths_to_cats only)  return "scheme", {};  try: return "hive", _path_to_cats(...) / except ValueError: return "drill", ...
 """
 import ast
 
@@ -200,11 +210,22 @@ class Fn:
         if e.keywords and not (isinstance(f, ast.Name) and f.id == "int"):
             _bad(e, "keyword arguments")
         if isinstance(f, ast.Name):
+            if f.id == "len" and len(e.args) == 1 and isinstance(e.args[0], ast.Call) and isinstance(e.args[0].func, ast.Name) \
+                    and e.args[0].func.id == "set" and len(e.args[0].args) == 1:
+                a, ta = self.E(e.args[0].args[0], env)
+                if ta != "list nat":
+                    _bad(e, "len(set(%s))" % ta)
+                return "(py_distinct_count %s)" % a, "nat"
             if f.id == "len" and len(e.args) == 1:
                 a, ta = self.E(e.args[0], env)
                 if not ta.startswith("list "):
                     _bad(e, "len of %s" % ta)
                 return "(length %s)" % a, "nat"
+            if f.id == "max" and len(e.args) == 1:
+                a, ta = self.E(e.args[0], env)
+                if ta != "list nat":
+                    _bad(e, "max of %s" % ta)
+                return "(list_max %s)" % a, "nat"
             if f.id == "zip" and len(e.args) == 2:
                 a, ta = self.E(e.args[0], env)
                 b, tb = self.E(e.args[1], env)
@@ -275,11 +296,12 @@ class Fn:
                     if tr_ != "str":
                         _bad(e, "character membership in %s" % tr_)
                     return "(has_char %s %s)" % (chr_const(left.value, e), r)
-                if isinstance(right, ast.List) and all(isinstance(x, ast.Constant) and isinstance(x.value, str) for x in right.elts):
+                if isinstance(right, ast.List) and all(isinstance(x, ast.Constant) and (isinstance(x.value, str) or x.value is None) for x in right.elts):
                     a, ta = self.E(left, env)
                     if ta != "str":
                         _bad(e, "membership of %s" % ta)
-                    return "(mem_str %s [%s])" % (a, "; ".join(str_const(x.value, x) for x in right.elts))
+                    # None (a row group without file_path) stands for the empty text in the model
+                    return "(mem_str %s [%s])" % (a, "; ".join(str_const(x.value or "", x) for x in right.elts))
                 _bad(e, "membership test")
             if isinstance(op, (ast.Eq, ast.NotEq)):
                 # type(x) == str: the model's inputs are texts
@@ -295,6 +317,12 @@ class Fn:
                     _bad(e, "comparison of %s with %s" % (ta, tb))
                 t = "(%s %s %s)" % (eqb_of(ta, e), a, b)
                 return t if isinstance(op, ast.Eq) else "(negb %s)" % t
+            if isinstance(op, (ast.Lt, ast.Gt)):
+                a, ta = self.E(left, env)
+                b, tb = self.E(right, env)
+                if ta != "nat" or tb != "nat":
+                    _bad(e, "order comparison of %s with %s" % (ta, tb))
+                return "(%s <? %s)" % ((a, b) if isinstance(op, ast.Lt) else (b, a))
             _bad(e, "comparison operator")
         if isinstance(e, ast.Call) and isinstance(e.func, ast.Name) and e.func.id == "all" and len(e.args) == 1 \
                 and isinstance(e.args[0], ast.GeneratorExp):
@@ -311,6 +339,10 @@ class Fn:
                 return "(py_is_timestamp %s)" % a
             _bad(e, "isinstance(%s, %s)" % (ta, cls))
         t, ty = self.E(e, env)
+        if ty == "str":
+            return "(nonempty %s)" % t           # truth value of a text
+        if ty.startswith("list "):
+            return "(py_nonempty_list %s)" % t   # truth value of a list
         if ty != "bool":
             _bad(e, "condition of type %s" % ty)
         return t
@@ -475,6 +507,227 @@ class Fn:
         return False
 
 
+SCHEMES = {"empty": "Empty", "simple": "Simple", "flat": "Flat", "other": "Other", "hive": "Hive", "drill": "Drill"}
+
+
+class FnCats(Fn):
+    """api.paths_to_cats: returns ("scheme", cats); `_path_to_cats` is the parameter path_to_cats_ (hive? -> metadata ->
+    zip(paths, parts) -> res cats), `_strip_path_tail(paths)` the parameter dirs"""
+
+    def __init__(self, name, default_scheme):
+        Fn.__init__(self, name, {})
+        self.default_scheme = default_scheme
+
+    def E(self, e, env):
+        if isinstance(e, ast.Dict) and not e.keys:
+            return "[]", "cats"
+        return Fn.E(self, e, env)
+
+    def call(self, e, env):
+        f = e.func
+        if isinstance(f, ast.Name) and f.id == "_strip_path_tail" and len(e.args) == 1 and not e.keywords:
+            a, ta = self.E(e.args[0], env)
+            if a != "paths" or ta != "list str":
+                _bad(e, "_strip_path_tail of something else than the parameter paths")
+            return "dirs", "list str"
+        if isinstance(f, ast.Name) and f.id == "_path_to_cats":
+            if len(e.args) not in (2, 3) or [k.arg for k in e.keywords] != ["partition_meta"]:
+                _bad(e, "call of _path_to_cats")
+            a, ta = self.E(e.args[0], env)
+            b, tb = self.E(e.args[1], env)
+            if ta != "list str" or tb != "list (list str)":
+                _bad(e, "_path_to_cats(%s, %s)" % (ta, tb))
+            scheme = self.default_scheme
+            if len(e.args) == 3:
+                if not (isinstance(e.args[2], ast.Constant) and e.args[2].value in ("hive", "drill")):
+                    _bad(e, "file_scheme argument")
+                scheme = e.args[2].value
+            m = e.keywords[0].value
+            if isinstance(m, ast.Constant) and m.value is None:
+                meta = "[]"                      # partition_meta = partition_meta or {}
+            elif isinstance(m, ast.Name) and env.get(m.id) == "meta":
+                meta = ident(m.id)
+            else:
+                _bad(e, "partition_meta argument")
+            return "(path_to_cats_ %s %s (combine %s %s))" % ("true" if scheme == "hive" else "false", meta, a, b), "res cats"
+        return Fn.call(self, e, env)
+
+    def result(self, node, env):
+        """return "scheme", X  -> (term of type res (scheme * cats))"""
+        v = node.value
+        if not (isinstance(v, ast.Tuple) and len(v.elts) == 2 and isinstance(v.elts[0], ast.Constant) and v.elts[0].value in SCHEMES):
+            _bad(node, "return value of paths_to_cats")
+        sch = SCHEMES[v.elts[0].value]
+        t, ty = self.E(v.elts[1], env)
+        if ty == "cats":
+            return "Ok (%s, %s)" % (sch, t)
+        if ty == "res cats":
+            return "res_map (fun c => (%s, c)) %s" % (sch, t)
+        _bad(node, "second component of type %s" % ty)
+
+    def block(self, stmts, env, ret):
+        if stmts and isinstance(stmts[0], ast.Return):
+            return self.result(stmts[0], env)
+        if stmts and isinstance(stmts[0], ast.Try):
+            s = stmts[0]
+            if len(s.body) == 1 and isinstance(s.body[0], ast.Return) and len(s.handlers) == 1 and not s.orelse and not s.finalbody \
+                    and s.handlers[0].type is not None and ast.unparse(s.handlers[0].type) == "ValueError" \
+                    and len(s.handlers[0].body) == 1 and isinstance(s.handlers[0].body[0], ast.Return):
+                v = s.body[0].value
+                if not (isinstance(v, ast.Tuple) and len(v.elts) == 2 and isinstance(v.elts[0], ast.Constant) and v.elts[0].value in SCHEMES):
+                    _bad(s, "return value inside try")
+                t, ty = self.E(v.elts[1], env)
+                if ty != "res cats":
+                    _bad(s, "try around a call that cannot raise in the model")
+                # only ValueError is caught: every other exception propagates
+                return "match %s with\n  | Ok c => Ok (%s, c)\n  | VErr =>\n  %s\n  | OErr => OErr\n  end" % (
+                    t, SCHEMES[v.elts[0].value], self.result(s.handlers[0].body[0], env))
+            _bad(s, "try statement of paths_to_cats")
+        return Fn.block(self, stmts, env, ret)
+
+
+def same_expr(node, text):
+    """node is the expression `text` (compared as syntax trees: independent of how a Python version prints parentheses)"""
+    return ast.dump(node) == ast.dump(ast.parse(text, mode="eval").body)
+
+
+def target_names(t):
+    return ",".join(n.id for n in ast.walk(t) if isinstance(n, ast.Name))
+
+
+# ------------------------------------------------------------------------------------------------ api._path_to_cats
+def translate_path_to_cats(fd):
+    """-> Gallina text (inside Section GenValues) for api._path_to_cats"""
+    stmts = [x for x in fd.body if not (isinstance(x, ast.Expr) and isinstance(x.value, ast.Constant))]
+    src = [ast.unparse(x) for x in stmts]
+    # ---- prologue: the containers and the metadata block used for levels known to be text
+    want = {"partition_meta = partition_meta or {}": None, "cats = OrderedDict()": "cats", "raw = {}": "raw", "string_types = set()": "strings",
+            "seen = set()": "seen", "meta = {'pandas_type': 'string', 'numpy_type': 'object'}": None, "s = ex_from_sep('/')": None}
+    loop = ret = None
+    for x, t in zip(stmts, src):
+        if isinstance(x, ast.For):
+            if loop is not None:
+                _bad(x, "second loop in _path_to_cats")
+            loop = x
+        elif isinstance(x, ast.Return):
+            ret = x
+        elif t not in want:
+            _bad(x, "statement of _path_to_cats outside the template")
+    must = [k for k in want if k not in src and not k.startswith("s = ")]
+    if must or loop is None or ret is None or stmts[-1] is not ret:
+        raise Unsupported("_path_to_cats: missing %r / loop / final return" % (must,))
+    if target_names(loop.target) != "path,path_parts" or not same_expr(loop.iter, "zip(paths, parts)") or loop.orelse:
+        _bad(loop, "outer loop of _path_to_cats")
+    # ---- outer body: hive hits / drill hits / inner loop
+    hive_if = drill_if = inner = None
+    for x in loop.body:
+        if isinstance(x, ast.If) and ast.unparse(x.test) == "file_scheme == 'hive'" and not x.orelse:
+            hive_if = x
+        elif isinstance(x, ast.If) and ast.unparse(x.test) == "file_scheme == 'drill'" and not x.orelse:
+            drill_if = x
+        elif isinstance(x, ast.For) and target_names(x.target) == "key,val" and same_expr(x.iter, "hivehits") and not x.orelse:
+            inner = x
+        else:
+            _bad(x, "statement in the outer loop of _path_to_cats")
+    if hive_if is None or drill_if is None or inner is None or loop.body[-1] is not inner:
+        raise Unsupported("_path_to_cats: hive branch / drill branch / inner loop not found")
+    f = Fn("_path_to_cats", {})
+    # hive: hivehits = [...]; if not hivehits: raise ValueError(...)
+    hb = hive_if.body
+    if not (len(hb) == 2 and isinstance(hb[0], ast.Assign) and ast.unparse(hb[0].targets[0]) == "hivehits" and isinstance(hb[1], ast.If)
+            and ast.unparse(hb[1].test) == "not hivehits" and len(hb[1].body) == 1 and isinstance(hb[1].body[0], ast.Raise)
+            and ast.unparse(hb[1].body[0].exc).startswith("ValueError(") and not hb[1].orelse):
+        _bad(hive_if, "hive branch of _path_to_cats")
+    hh, th = f.E(hb[0].value, {"path": "str"})
+    if th != "list (list str)":
+        _bad(hb[0], "hive hits of type %s" % th)
+    # drill: hivehits = [(f"dir{i}", v) for i, v in enumerate(path_parts)]
+    db = drill_if.body
+    ok = len(db) == 1 and isinstance(db[0], ast.Assign) and ast.unparse(db[0].targets[0]) == "hivehits" and isinstance(db[0].value, ast.ListComp)
+    if ok:
+        lc = db[0].value
+        g = lc.generators[0]
+        ok = len(lc.generators) == 1 and not g.ifs and same_expr(g.iter, "enumerate(path_parts)") and target_names(g.target) == "i,v" \
+            and isinstance(lc.elt, ast.Tuple) and len(lc.elt.elts) == 2 and ast.unparse(lc.elt.elts[1]) == "v" \
+            and isinstance(lc.elt.elts[0], ast.JoinedStr) and len(lc.elt.elts[0].values) == 2 \
+            and isinstance(lc.elt.elts[0].values[0], ast.Constant) and isinstance(lc.elt.elts[0].values[1], ast.FormattedValue) \
+            and ast.unparse(lc.elt.elts[0].values[1].value) == "i" and lc.elt.elts[0].values[1].conversion == -1 \
+            and lc.elt.elts[0].values[1].format_spec is None
+    if not ok:
+        _bad(drill_if, "drill branch of _path_to_cats")
+    prefix = str_const(lc.elt.elts[0].values[0].value, lc)
+    # ---- inner body by symbolic execution
+    st = {"seen": "(st_seen F T D st)", "strings": "(st_strings F T D st)", "cats": "(st_cats F T D st)", "raw": "(st_raw F T D st)"}
+    guard = None
+    tp = None
+    touched = False
+    for x in inner.body:
+        t = ast.unparse(x)
+        if isinstance(x, ast.If) and t.startswith("if (key, val) in seen:") and len(x.body) == 1 and isinstance(x.body[0], ast.Continue) and not x.orelse:
+            if touched:
+                _bad(x, "the `seen` test after a container was changed")
+            guard = "existsb (pair_eqb (key, val)) %s" % st["seen"]
+        elif t == "seen.add((key, val))":
+            st["seen"] = "((key, val) :: %s)" % st["seen"]
+            touched = True
+        elif isinstance(x, ast.Assign) and ast.unparse(x.targets[0]) == "tp":
+            if t != "tp = val_to_num(val, meta if key in string_types else partition_meta.get(key))":
+                _bad(x, "conversion of a directory value")
+            tp = "val_to_num_ (if mem_str key %s then Some KStr else alist_get key partition_meta) val" % st["strings"]
+        elif t == "if isinstance(tp, str):\n    string_types.add(key)":
+            if tp is None:
+                _bad(x, "tp used before it is bound")
+            st["strings"] = "(if is_vstr F T D tp then key :: %s else %s)" % (st["strings"], st["strings"])
+            touched = True
+        elif t == "cats.setdefault(key, set()).add(tp)":
+            if tp is None:
+                _bad(x, "tp used before it is bound")
+            st["cats"] = "(cats_add_ key tp %s)" % st["cats"]
+            touched = True
+        elif t == "raw.setdefault(key, set()).add(val)":
+            st["raw"] = "(raw_add key val %s)" % st["raw"]
+            touched = True
+        else:
+            _bad(x, "statement in the inner loop of _path_to_cats")
+    if guard is None or tp is None or any(v.startswith("(st_") and v.endswith(" st)") and v.count("(") == 1 for k, v in st.items()):
+        raise Unsupported("_path_to_cats: inner loop does not test `seen`, convert the value and update all four containers")
+    # ---- return OrderedDict([(key, list(raw[key] if key in string_types else v)) for key, v in cats.items()])
+    if not same_expr(ret.value, "OrderedDict([(key, list(raw[key] if key in string_types else v)) for key, v in cats.items()])"):
+        _bad(ret, "return expression of _path_to_cats")
+    return (
+        "  (* api._path_to_cats, line %d.  val_to_num_ stands for util.val_to_num (kind of the metadata -> text -> res value), cats_add_ for\n"
+        "     set.add under Python's == ; {'pandas_type': 'string', 'numpy_type': 'object'} is KStr *)\n"
+        "  Definition gen_hive_hits (path : str) : option (list (list str)) :=\n"
+        "  let hivehits := %s in\n  if negb (py_nonempty_list hivehits) then None else Some hivehits.\n\n"
+        "  Definition gen_drill_hits (path_parts : list str) : list (str * str) :=\n"
+        "  mapi_from (fun i v => (%s ++ show_nat i, v)) 0 path_parts.\n\n"
+        "  Section GenCats.\n"
+        "  Variable val_to_num_ : option kind -> str -> res value.\n"
+        "  Variable cats_add_ : str -> value -> list (str * list value) -> list (str * list value).\n"
+        "  Definition gen_add_hit (partition_meta : list (str * kind)) (st : res (pstate F T D)) (kv : str * str) : res (pstate F T D) :=\n"
+        "  match st with\n  | VErr => VErr\n  | OErr => OErr\n  | Ok st =>\n  let '(key, val) := kv in\n"
+        "  if %s then Ok st else\n  match %s with\n  | VErr => VErr\n  | OErr => OErr\n  | Ok tp =>\n"
+        "  Ok (Build_pstate F T D\n        (* cats *) %s\n        (* raw *) %s\n        (* string_types *) %s\n        (* seen *) %s)\n  end\n  end.\n\n"
+        "  Definition gen_final_cats (st : pstate F T D) : list (str * list value) :=\n"
+        "  map (fun '(key, v) => (key, if mem_str key (st_strings F T D st) then map VStr (match alist_get key (st_raw F T D st) with Some l => l | None => [] end) else v))\n"
+        "      (st_cats F T D st).\n\n"
+        "  (* the loop skeleton (template): for every (path, parts): the hits of the scheme (no hive hit, or a hit that does not unpack into\n"
+        "     (key, val): ValueError), then the inner loop over the hits *)\n"
+        "  Definition gen_path_hits (hive : bool) (pp : str * list str) : res (list (str * str)) :=\n"
+        "  if hive then match gen_hive_hits (fst pp) with\n"
+        "               | Some hits => res_of_opt (all_some (map pair_of hits))\n               | None => VErr end\n"
+        "  else Ok (gen_drill_hits (snd pp)).\n"
+        "  Definition gen_path_to_cats (hive : bool) (partition_meta : list (str * kind)) (pps : list (str * list str))\n"
+        "    : res (list (str * list value)) :=\n"
+        "  res_map gen_final_cats\n"
+        "    (fold_left (fun st pp => match st with\n"
+        "                             | Ok _ => match gen_path_hits hive pp with\n"
+        "                                       | Ok hits => fold_left (gen_add_hit partition_meta) hits st\n"
+        "                                       | VErr => VErr\n                                       | OErr => OErr\n                                       end\n"
+        "                             | e => e\n                             end) pps (Ok (st0 F T D))).\n"
+        "  End GenCats.\n" % (fd.lineno, hh, prefix, guard, tp, st["cats"], st["raw"], st["strings"], st["seen"]))
+
+
 def find_def(tree, name):
     for n in tree.body:
         if isinstance(n, ast.FunctionDef) and n.name == name:
@@ -499,10 +752,12 @@ Local Open Scope bool_scope.
 """
 
 
-def translate(util_src, writer_src):
+def translate(util_src, writer_src, api_src=None):
     """-> Gallina text of Gen/GenPaths.v"""
+    import os
     ut = ast.parse(open(util_src).read())
     wt = ast.parse(open(writer_src).read())
+    at = ast.parse(open(api_src or os.path.join(os.path.dirname(util_src), "api.py")).read())
     out = [HEADER]
 
     # ---- util.analyse_paths(file_list, root=False)
@@ -620,10 +875,28 @@ def translate(util_src, writer_src):
         raise Unsupported("partition_on_columns: relname of type %s" % tr_)
     out.append("  (* writer.partition_on_columns, line %d *)\n  Definition gen_relname (path partname : str) : str :=\n  %s.\n"
                % (relname.lineno, r))
+    # ---- api.paths_to_cats(paths, partition_meta=None)
+    fd = find_def(at, "paths_to_cats")
+    params(fd, ["paths", "partition_meta"])
+    pd_ = find_def(at, "_path_to_cats")
+    params(pd_, ["paths", "parts", "file_scheme", "partition_meta"])
+    dfl = pd_.args.defaults
+    if not (len(dfl) == 2 and isinstance(dfl[0], ast.Constant) and dfl[0].value in ("hive", "drill") and isinstance(dfl[1], ast.Constant) and dfl[1].value is None):
+        raise Unsupported("_path_to_cats: defaults of file_scheme / partition_meta")
+    first = [x for x in pd_.body if not (isinstance(x, ast.Expr) and isinstance(x.value, ast.Constant))][0]
+    if ast.unparse(first) != "partition_meta = partition_meta or {}":
+        raise Unsupported("_path_to_cats does not start with `partition_meta = partition_meta or {}`")
+    out.append("\n" + translate_path_to_cats(pd_))
+    body = FnCats("paths_to_cats", dfl[0].value).block(fd.body, {"paths": "list str", "partition_meta": "meta"}, None)
+    out.append("\n  (* api.paths_to_cats, line %d.  path_to_cats_ hive? metadata zip(paths, parts) stands for api._path_to_cats; dirs for the elements of\n"
+               "     the set _strip_path_tail(paths) in iteration order; a missing file_path (None) is the empty text *)\n"
+               "  Notation cats := (list (str * list value)).\n  Notation meta := (list (str * kind)).\n"
+               "  Definition gen_paths_to_cats (path_to_cats_ : bool -> meta -> list (str * list str) -> res cats)\n"
+               "      (partition_meta : meta) (paths : list str) (dirs : list str) : res (scheme * cats) :=\n  %s.\n" % (fd.lineno, body))
     out.append("End GenValues.\n")
     return "".join(out)
 
 
 if __name__ == "__main__":
     import sys
-    print(translate(sys.argv[1], sys.argv[2]))
+    print(translate(sys.argv[1], sys.argv[2], sys.argv[3] if len(sys.argv) > 3 else None))
